@@ -581,7 +581,11 @@ def check_lookup_protocol(ctx) -> None:
         ctx.violation("T8", f, f"_get_info should add at exactly one place, found {len(adds)}", construct="ClassDB._get_info add sites")
     else:
         facts = _facts(f, adds[0])
-        if any(o == "is" and r == "None" for l, o, r in facts):
+        key_txt = norm(adds[0].args[0]) if adds[0].args else ""
+        absent = any(isinstance(t, ast.Compare) and len(t.ops) == 1 and norm(t.left) == key_txt and norm(t.comparators[0]) == "self.class_to_info"
+                     and ((isinstance(t.ops[0], ast.NotIn) and pol) or (isinstance(t.ops[0], ast.In) and not pol))
+                     for t, pol in C.flatten_guards(C.guards(f, adds[0])))
+        if any(o == "is" and r == "None" for l, o, r in facts) or absent:
             ctx.ok("T8", "_get_info adds only after a failed lookup")
         else:
             ctx.violation("T8", adds[0], "_get_info adds a class without first looking it up (labels would not be stable)")
